@@ -6,7 +6,12 @@
 set -u
 PATCH=$(realpath "$1"); shift
 NAME=$(basename "$PATCH" .diff)
-W=/tmp/mut-iso/$NAME
+# a fixed work dir per worker keeps the crate identity (path) stable, so cargo overwrites its artifacts instead of
+# piling up a new set per patch (that filled the disk once: 95 GB)
+W=${MUT_WORK:-/tmp/mut-iso/work}
+MT=${MUT_TARGET:-/tmp/mut-target}
+LOCK=$MT.lock
+exec 9>$LOCK; flock 9     # held to the end: work dir and target dir belong to one run at a time
 rm -rf "$W"; mkdir -p "$W"
 # the committed state of /repo (not its working tree, which another run may have patched at this moment)
 mkdir -p "$W/repo" && git -C /repo archive HEAD | tar -x -C "$W/repo"
@@ -22,9 +27,6 @@ else
   echo "$NAME PATCH-DOES-NOT-APPLY"; rm -rf "$W"; exit 2
 fi
 export CARGO_NET_OFFLINE=true
-MT=${MUT_TARGET:-/tmp/mut-target}
-LOCK=$MT.lock
-exec 9>$LOCK; flock 9
 if [ "${BASELINE:-0}" = 1 ]; then
   res=$(cd "$W/repo" && CARGO_TARGET_DIR=/tmp/mut-target-repo cargo test --workspace --no-fail-fast --offline 2>&1 | grep -E "^test result|error(\[|:)" | head -4 | tr '\n' ' ')
   echo "$NAME baseline: $res"
@@ -37,7 +39,6 @@ cp $MT/release/pmv "$W/pmv"
 if (cd "$W/harness" && CARGO_TARGET_DIR=$MT cargo build --profile plain --offline >> "$W/build.log" 2>&1); then
   cp $MT/plain/pmv "$W/pmv-plain"
 fi
-flock -u 9
 export VERIF_EVIDENCE_DIR=$W/evidence VERIF_REPLAY_DIR=$W/replays
 mkdir -p $VERIF_EVIDENCE_DIR
 for id in "$@"; do
